@@ -34,6 +34,19 @@ def _format(obj, format_spec=""):
     with NoTracing():
         if _is_sym(obj) and not isinstance(obj, _bl.AnySymbolicStr):
             return "<sym>"
+        # a plain user object without __format__ of its own: format() is str(); CrossHair would deep-copy and realise
+        # everything reachable from it first (e.g. a reader object that holds the symbolic selector)
+        t = type(obj)
+        plain = (
+            not _is_sym(obj)
+            and isinstance(format_spec, str)
+            and format_spec == ""
+            and getattr(t, "__module__", "builtins") != "builtins"
+            and t.__format__ is object.__format__
+            and not isinstance(obj, (str, bytes, int, float, tuple, list, dict, set, frozenset, BaseException))
+        )
+    if plain:
+        return str(obj)
     return _orig_format(obj, format_spec)
 
 
